@@ -33,6 +33,47 @@ REST = ["auto", "register", "extern", "_Thread_local", "_Noreturn", "restrict", 
         "-", "--", "/", "%", "|", "~", "^", ">", "<<", ">>", "<=", ">=", "==", "!=", "&&", "||", "*=", "/=", "%=", "+=",
         "-=", "<<=", ">>=", "&=", "|=", "0x1F", "0b1", "017", "1u", "1.f", "0x1p3", "L'a'", "u8\"x\"", "u'a'", "U\"x\""]
 SMALL = ["int", "T", "x", "(", ")", "{", "}", "[", "]", ";", ",", "*", "=", "1", "struct", "typedef"]
+SPECS = ["_Alignas", "_Atomic", "(", ")", "int", "1", ";", "x", "const", ":"]
+
+
+def token_mutants(toks, alphabet, rnd, k):
+    """k random token-level mutants (delete / insert / replace / swap / duplicate / truncate, one or two at once)."""
+    out = []
+    n = len(toks)
+    for _ in range(k):
+        t = list(toks)
+        for _ in range(rnd.choice([1, 1, 2])):
+            if not t:
+                break
+            i = rnd.randrange(len(t))
+            op = rnd.choice(["del", "ins", "rep", "swap", "dup", "trunc"])
+            if op == "del":
+                del t[i]
+            elif op == "ins":
+                t.insert(i, rnd.choice(alphabet))
+            elif op == "rep":
+                t[i] = rnd.choice(alphabet)
+            elif op == "swap" and i + 1 < len(t):
+                t[i], t[i + 1] = t[i + 1], t[i]
+            elif op == "dup":
+                t.insert(i, t[i])
+            elif op == "trunc":
+                t = t[:i]
+        out.append(" ".join(t))
+    return out
+
+
+def _mut_work(args):
+    toks, seed = args
+    rnd = random.Random(seed)
+    bad = []
+    n = 0
+    for src in token_mutants(toks, CORE + REST, rnd, 24):
+        n += 1
+        k, detail = classify(src, "f.c", check_loc="#" not in src)
+        if k.startswith("bad") and not (k == "bad:location-prefix" and "#" in src):
+            bad.append((src, k, detail))
+    return n, bad
 
 
 def text_of(seq, c):
@@ -135,7 +176,11 @@ def run(tier):
         run_population(ctx, seqs, "len<=3 core alphabet (sample 60000)")
         seqs = enumerate_seqs(ctx, "len<=4 over %d small tokens" % len(SMALL), SMALL, 4)
         run_population(ctx, seqs, "len<=4 small alphabet")
+        sq = enumerate_seqs(ctx, "len<=5 over %d specifier tokens" % len(SPECS), SPECS, 5)
+        run_population(ctx, sq, "len<=5 specifier alphabet")
     else:
+        sq = enumerate_seqs(ctx, "len<=5 over %d specifier tokens" % len(SPECS), SPECS, 5)
+        run_population(ctx, sq, "len<=5 specifier alphabet")
         seqs = enumerate_seqs(ctx, "len<=3 over %d tokens" % len(CORE + FOREIGN + REST), CORE + FOREIGN + REST, 3)
         run_population(ctx, seqs, "len<=3 full alphabet")
         seqs = enumerate_seqs(ctx, "len<=4 over %d tokens" % 30, CORE[:30], 4)
@@ -144,6 +189,17 @@ def run(tier):
         run_population(ctx, seqs, "len<=5 small alphabet")
     for s in seqs[len(seqs) // 2: len(seqs) // 2 + 2]:
         ctx.sample(dict(sequence=s["seq"], text_in_function_context=text_of(s["seq"], 2)))
+    # token-level mutations of valid programs (derived by TLC from CGram.tla)
+    from . import c01
+    progs = [e["toks"] for e in c01.derive(ctx, "CGram fuel<=2 (mutation targets)", 2)]
+    progs = rnd.sample(progs, 2500 if tier == "quick" else len(progs))
+    n = 0
+    for cnt, bad in pmap(_mut_work, [(t, rnd.randrange(1 << 30)) for t in progs], chunk=16):
+        n += cnt
+        for src, k, detail in bad:
+            ctx.fail(sig_of(k, detail, src), dict(kind="text", text=src))
+    ctx.count(n, nontrivial=len(progs), traces=n)
+    ctx.note("population_token_mutants_of_valid_programs", dict(programs=len(progs), mutants=n))
     # noise
     texts = noise_population(ctx, tier)
     chunks = [texts[i:i + 2000] for i in range(0, len(texts), 2000)]
